@@ -12,7 +12,8 @@ left outside as the tokeniser that produces a `Doc`:
   `none` when the node is missing or has no text (both are read as "absent" by the parser);
 * children the parser `unwrap()`s without a default (`UniqueID`, `In`, `Duration`, `EditOffset`, `ID`,
   `PeakBrightness`, `ImageCharacter`, `Trim`, `MidContrastBias`, …) are mandatory fields here: a document that
-  lacks one makes the tool panic before any value is read and has no `Doc`;
+  lacks one makes the tool panic when it reaches that node (unless an earlier `Err` — unsupported version, a wrong
+  number of primaries — ends the run first) and has no `Doc`;
 * target display ids and `TID`s are decimal numerals in canonical form (the parser compares the strings).
 
 What the parser does with the tokens — version classification, which nodes are read, which target displays are
